@@ -298,45 +298,110 @@ func checkLoadFile(w *World) []*OwnOb {
 	if fi == nil {
 		return []*OwnOb{{Key: ".:Parser.loadFile.effects[root-relative read]", Kind: "effects", OK: false, Why: "loadFile not found"}}
 	}
+	info := fi.Pkg.TypesInfo
 	pos := posStr(w, fi.Decl.Pos())
+	recv, pathParam := recvAndFirstParam(fi)
 	var out []*OwnOb
-	okFh := true
-	n := 0
-	for _, r := range assignmentsTo(fi, "fh") {
+	// the handle: what io.ReadAll is applied to (names of locals do not matter: everything goes through objects)
+	var fhObj types.Object
+	nRead := 0
+	ast.Inspect(fi.Decl.Body, func(nd ast.Node) bool {
+		if c, ok := nd.(*ast.CallExpr); ok && callName(w, c, info) == "io.ReadAll" && len(c.Args) == 1 {
+			nRead++
+			fhObj = identObj(c.Args[0], info)
+		}
+		return true
+	})
+	var relObj types.Object
+	okFh, n := fhObj != nil, 0
+	for _, r := range assignmentsToObj(fi, fhObj) {
 		n++
-		if exprString(r) == "os.Stdin" || callIs(r, "p.root.Open", "relPath") {
+		if exprString(r) == "os.Stdin" {
 			continue
+		}
+		if c, ok := r.(*ast.CallExpr); ok && callName(w, c, info) == "os.Root.Open" && len(c.Args) == 1 && isFieldOf(c.Fun.(*ast.SelectorExpr).X, recv, "root", info) {
+			if o := identObj(c.Args[0], info); o != nil && (relObj == nil || relObj == o) {
+				relObj = o
+				continue
+			}
 		}
 		okFh = false
 	}
-	out = append(out, &OwnOb{Key: fi.Key + ".effects[handle is stdin or root.Open(relPath)]", Kind: "effects", OK: okFh && n >= 2, Pos: pos,
+	out = append(out, &OwnOb{Key: fi.Key + ".effects[handle is stdin or root.Open(relPath)]", Kind: "effects", OK: okFh && n >= 2 && relObj != nil, Pos: pos,
 		Why: "the handle passed to io.ReadAll must only ever be os.Stdin or p.root.Open(relPath)"})
-	okRel, nr := true, 0
-	for _, r := range assignmentsTo(fi, "relPath") {
+	var absObj types.Object
+	okRel, nr := relObj != nil, 0
+	for _, r := range assignmentsToObj(fi, relObj) {
 		nr++
-		if !callIs(r, "filepath.Rel", "p.rootPath", "absPath") {
+		c, ok := r.(*ast.CallExpr)
+		if !ok || callName(w, c, info) != "filepath.Rel" || len(c.Args) != 2 || !isFieldOf(c.Args[0], recv, "rootPath", info) || identObj(c.Args[1], info) == nil {
 			okRel = false
+			continue
 		}
+		absObj = identObj(c.Args[1], info)
 	}
 	out = append(out, &OwnOb{Key: fi.Key + ".effects[relPath = Rel(rootPath, absPath)]", Kind: "effects", OK: okRel && nr == 1, Pos: pos,
 		Why: "the path opened through the root handle must be the file's absolute path made relative to the parser's root path"})
-	okAbs, na := true, 0
-	for _, r := range assignmentsTo(fi, "absPath") {
+	okAbs, na := absObj != nil, 0
+	for _, r := range assignmentsToObj(fi, absObj) {
 		na++
-		if !callIs(r, "filepath.Abs", "path") {
+		c, ok := r.(*ast.CallExpr)
+		if !ok || callName(w, c, info) != "filepath.Abs" || len(c.Args) != 1 || pathParam == nil || identObj(c.Args[0], info) != pathParam {
 			okAbs = false
 		}
 	}
 	out = append(out, &OwnOb{Key: fi.Key + ".effects[absPath = Abs(path)]", Kind: "effects", OK: okAbs && na == 1, Pos: pos, Why: "absPath must be filepath.Abs(path)"})
-	// io.ReadAll is applied to fh
-	okRead := false
-	ast.Inspect(fi.Decl.Body, func(nd ast.Node) bool {
-		if c, ok := nd.(*ast.CallExpr); ok && callIs(c, "io.ReadAll", "fh") {
-			okRead = true
+	out = append(out, &OwnOb{Key: fi.Key + ".effects[content read from fh]", Kind: "effects", OK: nRead == 1 && fhObj != nil, Pos: pos, Why: "the content must be read from that handle (io.ReadAll(fh)), once"})
+	return out
+}
+
+// recvAndFirstParam: the objects of the receiver and of the first parameter.
+func recvAndFirstParam(fi *FuncInfo) (types.Object, types.Object) {
+	sig := fi.Obj.Type().(*types.Signature)
+	var r, p types.Object
+	if sig.Recv() != nil {
+		r = sig.Recv()
+	}
+	if sig.Params().Len() > 0 {
+		p = sig.Params().At(0)
+	}
+	return r, p
+}
+
+// isFieldOf: x is <obj>.<field>
+func isFieldOf(x ast.Expr, obj types.Object, field string, info *types.Info) bool {
+	sel, ok := x.(*ast.SelectorExpr)
+	return ok && obj != nil && sel.Sel.Name == field && identObj(sel.X, info) == obj
+}
+
+// assignmentsToObj: the right-hand sides assigned to the variable (":=", "=" and var declarations), by object.
+func assignmentsToObj(fi *FuncInfo, obj types.Object) []ast.Expr {
+	var out []ast.Expr
+	if obj == nil {
+		return nil
+	}
+	info := fi.Pkg.TypesInfo
+	ast.Inspect(fi.Decl.Body, func(n ast.Node) bool {
+		switch as := n.(type) {
+		case *ast.AssignStmt:
+			for i, l := range as.Lhs {
+				if identObj(l, info) == obj {
+					if len(as.Rhs) == len(as.Lhs) {
+						out = append(out, as.Rhs[i])
+					} else if len(as.Rhs) == 1 {
+						out = append(out, as.Rhs[0])
+					}
+				}
+			}
+		case *ast.ValueSpec:
+			for i, nm := range as.Names {
+				if info.ObjectOf(nm) == obj && i < len(as.Values) {
+					out = append(out, as.Values[i])
+				}
+			}
 		}
 		return true
 	})
-	out = append(out, &OwnOb{Key: fi.Key + ".effects[content read from fh]", Kind: "effects", OK: okRead, Pos: pos, Why: "the content must be read from that handle (io.ReadAll(fh))"})
 	return out
 }
 
@@ -347,44 +412,67 @@ func checkSetRoot(w *World) []*OwnOb {
 	if fi == nil {
 		return []*OwnOb{{Key: ".:Parser.SetRoot.effects[narrowing]", Kind: "effects", OK: false, Why: "SetRoot not found"}}
 	}
+	info := fi.Pkg.TypesInfo
 	pos := posStr(w, fi.Decl.Pos())
-	ok1, n1 := true, 0
-	for _, r := range assignmentsTo(fi, "root") {
-		n1++
-		if !callIs(r, "p.root.OpenRoot", "rel") {
-			ok1 = false
-		}
+	recv, pathParam := recvAndFirstParam(fi)
+	// field writes on the receiver, in order
+	type fw struct {
+		field string
+		rhs   ast.Expr
 	}
-	ok2, n2 := true, 0
-	for _, r := range assignmentsTo(fi, "rel") {
-		n2++
-		if !callIs(r, "filepath.Rel", "p.rootPath", "abs") {
-			ok2 = false
-		}
-	}
-	ok3, n3 := true, 0
-	for _, r := range assignmentsTo(fi, "abs") {
-		n3++
-		if !callIs(r, "filepath.Abs", "path") {
-			ok3 = false
-		}
-	}
-	// field writes: p.root = root and p.rootPath = filepath.Join(p.rootPath, rel), adjacent, after the error check
-	var writes []string
+	var writes []fw
+	var shown []string
 	ast.Inspect(fi.Decl.Body, func(nd ast.Node) bool {
-		if as, ok := nd.(*ast.AssignStmt); ok && len(as.Lhs) == 1 {
-			if sel, ok := as.Lhs[0].(*ast.SelectorExpr); ok && exprString(sel.X) == "p" {
-				writes = append(writes, sel.Sel.Name+"="+exprString(as.Rhs[0]))
+		if as, ok := nd.(*ast.AssignStmt); ok && len(as.Lhs) == 1 && len(as.Rhs) == 1 {
+			if sel, ok := as.Lhs[0].(*ast.SelectorExpr); ok && recv != nil && identObj(sel.X, info) == recv {
+				writes = append(writes, fw{sel.Sel.Name, as.Rhs[0]})
+				shown = append(shown, sel.Sel.Name+"="+exprString(as.Rhs[0]))
 			}
 		}
 		return true
 	})
-	okW := len(writes) == 2 && writes[0] == "root=root" && writes[1] == "rootPath=filepath.Join(p.rootPath, rel)"
+	okW := len(writes) == 2 && writes[0].field == "root" && writes[1].field == "rootPath"
+	var rootObj, relObj, absObj types.Object
+	if okW {
+		rootObj = identObj(writes[0].rhs, info)
+		c, ok := writes[1].rhs.(*ast.CallExpr)
+		if rootObj == nil || !ok || callName(w, c, info) != "filepath.Join" || len(c.Args) != 2 || !isFieldOf(c.Args[0], recv, "rootPath", info) || identObj(c.Args[1], info) == nil {
+			okW = false
+		} else {
+			relObj = identObj(c.Args[1], info)
+		}
+	}
+	ok1, n1 := rootObj != nil, 0
+	for _, r := range assignmentsToObj(fi, rootObj) {
+		n1++
+		c, ok := r.(*ast.CallExpr)
+		if !ok || callName(w, c, info) != "os.Root.OpenRoot" || len(c.Args) != 1 || !isFieldOf(c.Fun.(*ast.SelectorExpr).X, recv, "root", info) || identObj(c.Args[0], info) != relObj || relObj == nil {
+			ok1 = false
+		}
+	}
+	ok2, n2 := relObj != nil, 0
+	for _, r := range assignmentsToObj(fi, relObj) {
+		n2++
+		c, ok := r.(*ast.CallExpr)
+		if !ok || callName(w, c, info) != "filepath.Rel" || len(c.Args) != 2 || !isFieldOf(c.Args[0], recv, "rootPath", info) || identObj(c.Args[1], info) == nil {
+			ok2 = false
+			continue
+		}
+		absObj = identObj(c.Args[1], info)
+	}
+	ok3, n3 := absObj != nil, 0
+	for _, r := range assignmentsToObj(fi, absObj) {
+		n3++
+		c, ok := r.(*ast.CallExpr)
+		if !ok || callName(w, c, info) != "filepath.Abs" || len(c.Args) != 1 || pathParam == nil || identObj(c.Args[0], info) != pathParam {
+			ok3 = false
+		}
+	}
 	return []*OwnOb{
 		{Key: fi.Key + ".effects[new root opened through the current root]", Kind: "effects", OK: ok1 && n1 == 1 && ok2 && n2 == 1 && ok3 && n3 == 1, Pos: pos,
 			Why: "SetRoot must open the new root with p.root.OpenRoot(Rel(p.rootPath, Abs(path))) so that nested calls can only narrow"},
 		{Key: fi.Key + ".effects[root and rootPath change together]", Kind: "effects", OK: okW, Pos: pos,
-			Why: "p.root and p.rootPath must be assigned together (root, then Join(rootPath, rel)) and nowhere else: found " + strings.Join(writes, "; ")},
+			Why: "p.root and p.rootPath must be assigned together (root, then Join(rootPath, rel)) and nowhere else: found " + strings.Join(shown, "; ")},
 	}
 }
 
@@ -394,15 +482,16 @@ func checkMainRootOrder(w *World) []*OwnOb {
 	if fi == nil {
 		return nil
 	}
+	info := fi.Pkg.TypesInfo
 	var setPos, mergePos token.Pos
 	ast.Inspect(fi.Decl.Body, func(nd ast.Node) bool {
 		if c, ok := nd.(*ast.CallExpr); ok {
-			switch exprString(c.Fun) {
-			case "p.SetRoot":
+			switch callName(w, c, info) {
+			case "Parser.SetRoot":
 				if setPos == token.NoPos {
 					setPos = c.Pos()
 				}
-			case "p.MergeFile", "p.MergeFileLayers":
+			case "Parser.MergeFile", "Parser.MergeFileLayers":
 				if mergePos == token.NoPos || c.Pos() < mergePos {
 					mergePos = c.Pos()
 				}
@@ -432,22 +521,66 @@ func checkMainRootOrder(w *World) []*OwnOb {
 
 // checkWrapper: C20 — the wrapped program is executed only after every file argument was evaluated and written;
 // every failure on that way is fatal; non-file arguments are skipped untouched.
+// callName: a name for the called function that does not depend on how locals are called: "Parser.OutputToFile",
+// "FileMatch" for repository functions, "os.CreateTemp", "os.File.Name", "syscall.Exec" for external ones.
+func callName(w *World, c *ast.CallExpr, info *types.Info) string {
+	if callee := w.calleeOfCall(c, info); callee != nil {
+		return callee.Name
+	}
+	n := extFuncName(c, info)
+	return n[strings.LastIndex(n, "/")+1:]
+}
+
+func identObj(x ast.Expr, info *types.Info) types.Object {
+	for {
+		p, ok := x.(*ast.ParenExpr)
+		if !ok {
+			break
+		}
+		x = p.X
+	}
+	if id, ok := x.(*ast.Ident); ok {
+		return info.ObjectOf(id)
+	}
+	return nil
+}
+
+// errCheckOf: `if <v> != nil {...}` -> the object of v (nil if the condition has another shape)
+func errCheckOf(ifs *ast.IfStmt, info *types.Info) types.Object {
+	b, ok := ifs.Cond.(*ast.BinaryExpr)
+	if !ok || b.Op != token.NEQ || exprString(b.Y) != "nil" {
+		return nil
+	}
+	return identObj(b.X, info)
+}
+
 func checkWrapper(w *World) []*OwnOb {
 	fi := findFunc(w, "wrapper:WrapOrDie")
 	if fi == nil {
 		return []*OwnOb{{Key: "wrapper:WrapOrDie.effects[exec after all evaluations]", Kind: "effects", OK: false, Why: "WrapOrDie not found"}}
 	}
+	info := fi.Pkg.TypesInfo
 	pos := posStr(w, fi.Decl.Pos())
+	// the loop over the arguments: the top-level range statement in which FileMatch is called
 	var loop *ast.RangeStmt
 	var execPos token.Pos
 	nExec := 0
 	for _, s := range fi.Decl.Body.List {
-		if r, ok := s.(*ast.RangeStmt); ok && exprString(r.X) == "args" {
-			loop = r
+		if r, ok := s.(*ast.RangeStmt); ok {
+			has := false
+			ast.Inspect(r.Body, func(nd ast.Node) bool {
+				if c, ok := nd.(*ast.CallExpr); ok && callName(w, c, info) == "FileMatch" {
+					has = true
+				}
+				return true
+			})
+			if has {
+				loop = r
+			}
 		}
 	}
 	ast.Inspect(fi.Decl.Body, func(nd ast.Node) bool {
-		if c, ok := nd.(*ast.CallExpr); ok && exprString(c.Fun) == "syscall.Exec" {
+		if c, ok := nd.(*ast.CallExpr); ok && callName(w, c, info) == "syscall.Exec" {
 			execPos = c.Pos()
 			nExec++
 		}
@@ -460,32 +593,50 @@ func checkWrapper(w *World) []*OwnOb {
 	if loop == nil {
 		return out
 	}
+	argsObj := identObj(loop.X, info)
+	var keyObj, valObj types.Object
+	if loop.Key != nil {
+		keyObj = identObj(loop.Key, info)
+	}
+	if loop.Value != nil {
+		valObj = identObj(loop.Value, info)
+	}
 	// inside the loop: a failing step is fatal, except FileMatch (not a bkl file -> argument passes through)
-	fatalAfter := map[string]bool{"bkl.New": false, "b.MergeFileLayers": false, "os.CreateTemp": false, "b.OutputToFile": false}
+	fatalAfter := map[string]bool{"New": false, "Parser.MergeFileLayers": false, "os.CreateTemp": false, "Parser.OutputToFile": false}
 	okFM := false
+	var tmpObj types.Object
 	stmts := loop.Body.List
 	for i, s := range stmts {
 		as, ok := s.(*ast.AssignStmt)
-		if !ok || len(as.Rhs) != 1 {
+		if !ok || len(as.Rhs) != 1 || len(as.Lhs) == 0 {
 			continue
 		}
 		c, ok := as.Rhs[0].(*ast.CallExpr)
 		if !ok {
 			continue
 		}
-		name := exprString(c.Fun)
+		name := callName(w, c, info)
+		if name == "os.CreateTemp" {
+			tmpObj = identObj(as.Lhs[0], info)
+		}
 		if i+1 >= len(stmts) {
 			continue
 		}
+		errObj := identObj(as.Lhs[len(as.Lhs)-1], info)
 		ifs, ok := stmts[i+1].(*ast.IfStmt)
-		if !ok || exprString(ifs.Cond) != "err != nil" || len(ifs.Body.List) != 1 {
+		if !ok || errObj == nil || errCheckOf(ifs, info) != errObj || len(ifs.Body.List) != 1 {
 			continue
 		}
-		body := exprString0(ifs.Body.List[0])
-		if _, tracked := fatalAfter[name]; tracked && body == "fatal(err)" {
+		isFatal := false
+		if es, ok := ifs.Body.List[0].(*ast.ExprStmt); ok {
+			if fc, ok := es.X.(*ast.CallExpr); ok && callName(w, fc, info) == "fatal" && len(fc.Args) == 1 && identObj(fc.Args[0], info) == errObj {
+				isFatal = true
+			}
+		}
+		if _, tracked := fatalAfter[name]; tracked && isFatal {
 			fatalAfter[name] = true
 		}
-		if name == "bkl.FileMatch" && body == "continue" && callIs(c, "bkl.FileMatch", "arg") {
+		if name == "FileMatch" && exprString0(ifs.Body.List[0]) == "continue" && len(c.Args) == 1 && valObj != nil && identObj(c.Args[0], info) == valObj {
 			okFM = true
 		}
 	}
@@ -500,14 +651,22 @@ func checkWrapper(w *World) []*OwnOb {
 		Why: "every failing step of evaluating a file argument must end in fatal(err) before the wrapped program can run; not so for: " + strings.Join(missing, ", ")})
 	out = append(out, &OwnOb{Key: fi.Key + ".effects[non-file arguments pass through]", Kind: "effects", OK: okFM, Pos: pos,
 		Why: "an argument for which bkl.FileMatch(arg) fails must be skipped with continue (left as it is)"})
-	// the only write to args is args[i] = tmp.Name()
+	// the only write to the argument vector is args[i] = tmp.Name() (the loop's own key, the file CreateTemp returned)
 	nW, okW := 0, true
 	ast.Inspect(fi.Decl.Body, func(nd ast.Node) bool {
 		if as, ok := nd.(*ast.AssignStmt); ok {
 			for i, l := range as.Lhs {
-				if ix, ok := l.(*ast.IndexExpr); ok && exprString(ix.X) == "args" {
+				if ix, ok := l.(*ast.IndexExpr); ok && argsObj != nil && identObj(ix.X, info) == argsObj {
 					nW++
-					if exprString(ix.Index) != "i" || i >= len(as.Rhs) || exprString(as.Rhs[i]) != "tmp.Name()" {
+					good := false
+					if keyObj != nil && identObj(ix.Index, info) == keyObj && i < len(as.Rhs) {
+						if rc, ok := as.Rhs[i].(*ast.CallExpr); ok && callName(w, rc, info) == "os.File.Name" {
+							if sel, ok := rc.Fun.(*ast.SelectorExpr); ok && tmpObj != nil && identObj(sel.X, info) == tmpObj {
+								good = true
+							}
+						}
+					}
+					if !good {
 						okW = false
 					}
 				}
@@ -551,8 +710,8 @@ func checkMainsStdout(w *World, dirs ...string) []*OwnOb {
 			found := false
 			ast.Inspect(s, func(nd ast.Node) bool {
 				if c, ok := nd.(*ast.CallExpr); ok {
-					switch exprString(c.Fun) {
-					case "fh.Write", "p.OutputToWriter", "p.OutputToFile":
+					switch callName(w, c, info) {
+					case "os.File.Write", "Parser.OutputToWriter", "Parser.OutputToFile":
 						found = true
 					}
 				}
@@ -570,7 +729,7 @@ func checkMainsStdout(w *World, dirs ...string) []*OwnOb {
 		okLast := writeIdx >= 0
 		// after the first output statement only the error check of that write may follow
 		for i := writeIdx + 1; okLast && i < len(stmts); i++ {
-			if ifs, ok := stmts[i].(*ast.IfStmt); ok && exprString(ifs.Cond) == "err != nil" {
+			if ifs, ok := stmts[i].(*ast.IfStmt); ok && errCheckOf(ifs, info) != nil {
 				continue
 			}
 			if writesOut(stmts[i]) {
